@@ -61,6 +61,9 @@ theories/Spec.vos theories/Spec.vok theories/Spec.required_vos: theories/Spec.v 
 theories/Refine.vo theories/Refine.glob theories/Refine.v.beautified theories/Refine.required_vo: theories/Refine.v theories/Base.vo theories/Vu64.vo theories/Hash.vo theories/KeyTypes.vo gen/Consts.vo theories/Sizing.vo theories/Alloc.vo theories/AllocInv.vo theories/Htx.vo theories/Htx_proofs.vo theories/Store.vo theories/Spec.vo
 theories/Refine.vio: theories/Refine.v theories/Base.vio theories/Vu64.vio theories/Hash.vio theories/KeyTypes.vio gen/Consts.vio theories/Sizing.vio theories/Alloc.vio theories/AllocInv.vio theories/Htx.vio theories/Htx_proofs.vio theories/Store.vio theories/Spec.vio
 theories/Refine.vos theories/Refine.vok theories/Refine.required_vos: theories/Refine.v theories/Base.vos theories/Vu64.vos theories/Hash.vos theories/KeyTypes.vos gen/Consts.vos theories/Sizing.vos theories/Alloc.vos theories/AllocInv.vos theories/Htx.vos theories/Htx_proofs.vos theories/Store.vos theories/Spec.vos
+theories/Refine_relink.vo theories/Refine_relink.glob theories/Refine_relink.v.beautified theories/Refine_relink.required_vo: theories/Refine_relink.v theories/Base.vo theories/Vu64.vo theories/Hash.vo theories/KeyTypes.vo gen/Consts.vo theories/Sizing.vo theories/Alloc.vo theories/AllocInv.vo theories/Htx.vo theories/Htx_proofs.vo theories/Store.vo theories/Spec.vo theories/Refine.vo
+theories/Refine_relink.vio: theories/Refine_relink.v theories/Base.vio theories/Vu64.vio theories/Hash.vio theories/KeyTypes.vio gen/Consts.vio theories/Sizing.vio theories/Alloc.vio theories/AllocInv.vio theories/Htx.vio theories/Htx_proofs.vio theories/Store.vio theories/Spec.vio theories/Refine.vio
+theories/Refine_relink.vos theories/Refine_relink.vok theories/Refine_relink.required_vos: theories/Refine_relink.v theories/Base.vos theories/Vu64.vos theories/Hash.vos theories/KeyTypes.vos gen/Consts.vos theories/Sizing.vos theories/Alloc.vos theories/AllocInv.vos theories/Htx.vos theories/Htx_proofs.vos theories/Store.vos theories/Spec.vos theories/Refine.vos
 theories/Bulk.vo theories/Bulk.glob theories/Bulk.v.beautified theories/Bulk.required_vo: theories/Bulk.v theories/Base.vo theories/KeyTypes.vo theories/Store.vo
 theories/Bulk.vio: theories/Bulk.v theories/Base.vio theories/KeyTypes.vio theories/Store.vio
 theories/Bulk.vos theories/Bulk.vok theories/Bulk.required_vos: theories/Bulk.v theories/Base.vos theories/KeyTypes.vos theories/Store.vos
